@@ -93,6 +93,35 @@ Theorem hypotheses_satisfiable :
 Proof. exact ex_hyps. Qed.
 Print Assumptions hypotheses_satisfiable.
 
+(* round 3 ------------------------------------------------------------------------------------------------------
+   refused_accept_closes: an incoming connection accepted while the socket budget is exhausted is closed exactly once,
+   at once, and leaves nothing behind (no handshake, no table entry, no counter, no block change) *)
+Theorem refused_accept_closes : forall sd ops c e,
+  let s := run sd ops in
+  sockfull s = true -> get_row c (rows s) = None ->
+  let s' := run sd (ops ++ [Connect c true e]) in
+  g s' = g s /\ blocks s' = blocks s /\
+  exists r, get_row c (rows s') = Some r /\ released r /\ closes r = 1 /\ fd r = false.
+Proof. exact ProofsState.refused_accept_closes. Qed.
+Print Assumptions refused_accept_closes.
+
+(* close hands back every chunk handle the hash queue holds (HashQueue::remove -> receive_hash_done(handle, NULL)
+   releases it) and empties the transfer list, from ANY reachable state *)
+Theorem close_drains_hash_queue : forall sd ops,
+  let s' := run sd (ops ++ [Close]) in hq s' = [] /\ blocks s' = [] /\ active s' = false /\ opened s' = false.
+Proof. exact ProofsState.close_drains_hash_queue. Qed.
+Print Assumptions close_drains_hash_queue.
+
+(* snubbed connections: ledger_inv, abort_releases_all and stop_zero above cover them (the row carries the snubbed flag,
+   a snubbed row contributes to no choke counter); non-vacuity: a reachable snubbed, interested connection and its abort *)
+Theorem snubbed_example :
+  (exists r, get_row 0 (rows (run true ex_snub_ops)) = Some r /\ us r = true /\ ui r = true /\ uu r = false) /\
+  nth 6 (g (run true ex_snub_ops)) 0 = 0 /\
+  g (run true (ex_snub_ops ++ [Abort 0])) = vz /\ rej (run true (ex_snub_ops ++ [Abort 0])) = false /\
+  g (run true (ex_snub_ops ++ [Unsnub 0; Abort 0])) = vz.
+Proof. exact ex_snub. Qed.
+Print Assumptions snubbed_example.
+
 (* the constants of the compiled code are the model's (DownloadInfo::max_size_pex is a tuning constant: the model takes it
    as state, set by SetMaxPex from the probed value; the theorems hold for every value) *)
 Theorem params_ok_now :
